@@ -139,6 +139,14 @@ def make_config(rng):
       for k in list(n.tags):
         if n.tags[k] and rng.random() < 0.3:
           n.tags[k] = set(n.tags[k]) | {rng.choice(vtags.ALL)}
+  if rng.random() < 0.15:
+    # one mutable, non-traversable leaf OBJECT (a set) referenced from two places
+    slots = [(n, k) for n in gen.walk(root) if isinstance(n, gen.B) and n.btype != 'TaggedValue'
+             for k, c in n.kw.items() if isinstance(c, gen.Leaf) and k != 'uid']
+    if len(slots) >= 2:
+      shared_set = {7, 8}
+      for n, k in rng.sample(slots, 2):
+        n.kw[k] = gen.Leaf(shared_set)
   return root
 
 
